@@ -14,18 +14,27 @@ Inductive op :=
 Definition input : Type :=
   (list rrule * list (str * list rrule) * option str * bool * op)%type.
 
-Definition route_obs (r : route) : obs :=
+(* handler.path_args / handler.path_kwargs: all groups go by keyword when the
+   pattern names them, else by position *)
+Definition route_obs (kw : option (list str)) (r : route) : obs :=
   match r with
-  | RtHandler h args => OList [OTag "Handler"; OInt (Z.of_N h); OList (map OBytes args)]
+  | RtHandler h args =>
+      match kw with
+      | None => OList [OTag "Handler"; OInt (Z.of_N h); OList (map OBytes args); OList []]
+      | Some ns =>
+          OList [OTag "Handler"; OInt (Z.of_N h); OList [];
+                 OList (map (fun nv => OList [OBytes (fst nv); OBytes (snd nv)]) (combine ns args))]
+      end
   | RtNotFound => OTag "NotFound"
   | RtDefault => OTag "Default"
   | RtError => OTag "UnicodeEncodeError"
   end.
+Definition route_obs_at (a : app) (rq : request) (r : route) : obs := route_obs (hit_kw a rq) r.
 
 Definition reverse_obs (a : app) (host : str) (r : option rev_res) : obs :=
   match r with
   | None => OTag "KeyError"
-  | Some (RvOk u) => OList [OTag "Url"; OBytes u; route_obs (app_find a (mk_request host u false))]
+  | Some (RvOk u) => OList [OTag "Url"; OBytes u; route_obs_at a (mk_request host u false) (app_find a (mk_request host u false))]
   | Some RvCannot => OTag "CannotReverse"
   | Some RvAssert => OTag "AssertionError"
   | Some RvNotEnough => OTag "NotEnoughArguments"
@@ -35,7 +44,7 @@ Definition reverse_obs (a : app) (host : str) (r : option rev_res) : obs :=
 
 Definition run_op (a : app) (o : op) : obs :=
   match o with
-  | OpRoute host uri xreal => route_obs (app_find a (mk_request host uri xreal))
+  | OpRoute host uri xreal => route_obs_at a (mk_request host uri xreal) (app_find a (mk_request host uri xreal))
   | OpReverse name args host => reverse_obs a host (app_reverse a name args)
   end.
 
@@ -43,7 +52,7 @@ Definition run_case (i : input) : obs :=
   let '(hs, hosts, dh, dflt, o) := i in
   match compile_app hs hosts dh dflt with
   | Some a => run_op a o
-  | None => OTag "UnsupportedPattern"
+  | None => OTag "ConstructionFailed"   (* mixed named/unnamed groups (AssertionError), or outside the fragment *)
   end.
 
 (* ---------- the property on observables ---------- *)
@@ -53,16 +62,16 @@ Definition check_op (a : app) (o : op) (ob : obs) : bool :=
   match o with
   | OpRoute host uri xreal =>
       let rq := mk_request host uri xreal in
-      if valid_textb (rq_path rq) then obs_eqb ob (route_obs (spec_route a rq)) else true
+      if valid_textb (rq_path rq) then obs_eqb ob (route_obs_at a rq (spec_route a rq)) else true
   | OpReverse name args host =>
       match roundtrip_expect a name args host with
-      | Some (u, h) => obs_eqb ob (OList [OTag "Url"; OBytes u; route_obs (RtHandler h args)])
+      | Some (u, h) => obs_eqb ob (OList [OTag "Url"; OBytes u; route_obs_at a (mk_request host u false) (RtHandler h args)])
       | None =>
           (* outside the round-trip scope: whatever URL came back must still be routed first-match *)
           match ob with
           | OList [OTag t; OBytes u; routed] =>
               let rq := mk_request host u false in
-              if valid_textb (rq_path rq) then obs_eqb routed (route_obs (spec_route a rq)) else true
+              if valid_textb (rq_path rq) then obs_eqb routed (route_obs_at a rq (spec_route a rq)) else true
           | _ => true
           end
       end
